@@ -50,7 +50,7 @@ var propMeta = map[string]meta{
 		assumptions:  commonAssume,
 	},
 	"C19": {
-		rule:         "one evaluation = one execution of a query history or concurrent schedule with ONE fault plan. For each sampled (lists, history) every fault instant k, every fault kind (storage Close, file Close, handle swapped for a closed descriptor, handle swapped for a directory descriptor so that Seek works and Read fails, stub permanent error, stub transient error for 1 or 3 retrievals) and every target list is executed, plus double faults (exhaustive in instant x kind x target for that history, up to 1500 plans per base, seeded sample beyond; the race-build phase samples 40); in a quarter of the bases the queries after the fault are repeated 6 or 40 times (error counters); rarely the base is one file-backed list of 8.5-11.5 thousand rules that a flood materialises completely before the fault (bounded caches). For each sampled concurrent base schedule every scheduling step is a fault instant; the fault is performed by a task of its own that the scheduler releases at that instant, so it can land between a cache miss and the insert, between Seek and read, between two block reads of one line. Oracle per query at/after the fault: no panic; no nil rule; returned network rules are a sub-multiset of the fault-free answer; returned host rules are in the fault-free answer or, if that answer stopped at a network rule, truly match the name; NetworkRule and every DNSRewrites() element are among the returned NetworkRules; matched is consistent; rules served by queries that completed before this one started (lines unique in their list) or living in in-memory lists are still present; before the fault answers equal the fault-free ones exactly. Non-trivial = the fault changed at least one answer or landed with a query in flight. Distinct = distinct hash of (plan, fault plan, answers).",
+		rule:         "one evaluation = one execution of a query history or concurrent schedule with ONE fault plan. For each sampled (lists, history) every fault instant k, every fault kind (storage Close, file Close, handle swapped for a closed descriptor, handle swapped for a directory descriptor so that Seek works and Read fails, stub permanent error, stub transient error for 1 or 3 retrievals) and every target list is executed, plus double faults (exhaustive in instant x kind x target for that history, up to 1500 plans per base (400 in the quick tier), seeded sample beyond; the race-build phase samples 40); in a quarter of the bases the queries after the fault are repeated 6 or 40 times (error counters); rarely the base is one file-backed list of 8.5-11.5 thousand rules that a flood materialises completely before the fault (bounded caches). For each sampled concurrent base schedule every scheduling step is a fault instant; the fault is performed by a task of its own that the scheduler releases at that instant, so it can land between a cache miss and the insert, between Seek and read, between two block reads of one line. Oracle per query at/after the fault: no panic; no nil rule; returned network rules are a sub-multiset of the fault-free answer; returned host rules are in the fault-free answer or, if that answer stopped at a network rule, truly match the name; NetworkRule and every DNSRewrites() element are among the returned NetworkRules; matched is consistent; rules served by queries that completed before this one started (lines unique in their list) or living in in-memory lists are still present; before the fault answers equal the fault-free ones exactly. Non-trivial = the fault changed at least one answer or landed with a query in flight. Distinct = distinct hash of (plan, fault plan, answers).",
 		stateMeasure: "HyperLogLog estimate over per-decision abstract states (yield-point vector x fault-active flag) in the concurrent part, and (history prefix length, fault kind, target) in the sequential part",
 		real:         commonReal,
 		stub:         []string{"FaultyRuleList: an implementation of the public filterlist.RuleList interface that wraps a real list and returns (nil, error) while a fault is active (kinds stub_permanent, stub_transient); all other fault kinds act on real files/descriptors"},
